@@ -178,8 +178,17 @@ CHECKS["C08"] = dict(
     note="Trusted: TLC, the harness's Go catalogue (hand-written to mirror the abstract one). Paths of length <=2; subscripts last; positions inside strings skipped.",
     technique="TLA+ reference resolver enumerated by TLC + exhaustive replay against a Go value catalogue", ref="DESIGN.md §3 C08")
 
+CHECKS["C01"] = dict(
+    text="PongoApi.tla contains the public API as an outcome machine (compile: template or error; execute: output or error; no action for "
+         "a panic, a dead process or a call that does not return) and the surface grammar as a generator instantiated from the live tag "
+         "and filter registries and the harness's value universe, incl. deliberately ill-formed productions. TLC's simulation mode draws "
+         "derivations; every source (plus all byte strings of the lexer's exhaustive configurations) is compiled and executed with three "
+         "contexts in an isolated worker under a deadline; the worker's outcome log is validated by Trace_PongoApi. The oracle is weak by "
+         "nature ('no bad event'); the strength is breadth, which is what the property's quantifier asks for.",
+    note="Trusted: TLC, process isolation (lowered stack limit, 8 s deadline), the value universe. Every other check additionally runs its programs under panic recovery.",
+    technique="TLA+ grammar/API specification simulated by TLC + isolated-process execution + trace validation", ref="DESIGN.md §3 C01")
+
 PENDING = {
-    "C01": "in progress: the API outcome machine and the grammar generator are being built; every other check already runs its programs under a no-panic oracle",
 }
 
 def main():
